@@ -77,6 +77,18 @@ CHECKS = {
         design_ref="DESIGN.md 3/C06", note=ANOTE + " Engine L trusted base as for C01.",
         technique="order / effect rules over abstract-interpretation traces + order-type enumeration in the polynomial IR domain",
     ),
+    "C07": dict(
+        engine="mfacts", category="other",
+        text=("Comparison operators are run in the abstract interpreter on symbolic operands; each is a decision tree over atoms (extents comparison, "
+              "element-comparison primitive, integer comparisons). Decided on ALL compatible path combinations: a != b is the negation of a == b "
+              "(7 operand mixes x D, element ranges, and the value layer - range, extensions_t, layout_t, iterators - down to integer comparisons); "
+              "a <= b == (a < b or a == b); a > b == b < a; a >= b == b <= a; a == b compares extensions() of every dimension; the six operators "
+              "exist for D = 1..3 (4 thorough) and array / view / reference mixes (type level); range == range is 'both empty or same endpoints' "
+              "for all integers (order-type enumeration)."),
+        design_ref="DESIGN.md 3/C07", note=ANOTE + " Relations between operators that resolve to different equality implementations for the same operand types (array_ref's flat "
+             "comparison vs the view comparison) are recorded as not comparable, not claimed. Not decided: the lexicographic order itself and transitivity over values.",
+        technique="decision-tree extraction by abstract interpretation of -O0 LLVM IR; propositional relation check; compile-time witnesses; order types",
+    ),
     "C08": dict(
         engine="mfacts", category="other",
         text=("Inductive invariant over histories: a typestate automaton over (storage, layout, element liveness) is run over every normal-exit path of "
